@@ -247,7 +247,7 @@ func init() {
 	Register(&Engine{
 		ID:      "C20",
 		Anchors: []string{"context.go:Context.Int", "context.go:Context.Uint", "context.go:Context.Bool", "context.go:Context.Float", "context.go:Context.Reset", "context.go:Context.Destroy", "context.go:NewContext", "context.go:Context.Range", "context.go:Context.Delete"},
-		Cases:   func(t string) int { return map[string]int{"quick": 3000, "thorough": 100000}[t] },
+		Cases:   func(t string) int { return map[string]int{"quick": 30000, "thorough": 2000000}[t] },
 		Run:     runC20,
 		Rule: "case = sequence of 60 Set/Delete/Reset/(fill, Destroy, NewContext) steps over keys incl. empty and non-UTF-8 ones and values from a pool of numeric edge cases (signs, overflow of int64/uint64/float64, NaN/Inf spellings, base prefixes, underscores, bool spellings, spaces, non-ASCII digits, raw bytes); after every step all accessors (Count, Get, Exists, String, Range, Int, Uint, Bool, Float and their Must* forms) for every pool key are compared with a Go map and strconv (value and error identity); " +
 			"non-trivial (distinct by op sequence) = sequence that stored at least one value strconv.ParseInt rejects",
